@@ -36,6 +36,17 @@ pub fn gen_mode_graph_case(d: &mut Dec, thorough: bool, lookaheads: usize) -> Ca
     };
     let model = case.model();
     if large {
+        if d.chance(90) {
+            // one very long token
+            let (rx, input) = gen::gen_long_token(d);
+            let mut tt = 41;
+            while case.modes[0].pats.iter().any(|p| p.tt == tt) {
+                tt += 1;
+            }
+            case.modes[0].pats.insert(0, PatSpec { rx, tt, la: None });
+            case.inputs.push(input);
+            return case;
+        }
         case.inputs.push(gen::gen_long_input(d, &model, 100, 400));
         return case;
     }
